@@ -53,6 +53,15 @@ CLAIMED = {
         note="Trusted: Lean kernel (propext, Classical.choice, Quot.sound); mock LiquidCrystal cell matrix (no DDRAM wrapping) + host g++; ASCII text only. "
              "Known finding K17a (message() on a one-row display writes row 1).",
         technique="Lean 4 refinement theorems (device cells = host buffer) + model/implementation correspondence (S_c, H)", ref="4/C17"),
+    "C18": dict(
+        text="Lean theorems over the emitted animation templates and the host LCD.animate/tick for all four styles, texts, widths, loop flags, speeds and clock values: "
+             "every frame rewrites only the animation's row within the display width; rate limit (no step while now - last < speed once the clock runs; consecutive steps "
+             ">= speed apart); looping animations never become inactive; non-looping ones are inactive after exactly-bounded many steps (scroll max(len,cols)+cols / len+cols "
+             "on the host, blink 1, typewriter max(len-1,1), bounce 2(cols-len)), a linear bound; inactive animations are never touched. Both models tied to the compiled "
+             "templates (cells after every pass, scripted clock) and to the real host class (every tick).",
+        note="Trusted: Lean kernel (propext, Classical.choice, Quot.sound); mock core + host g++; Nat clock (no millis() wrap); 'never blocks' = the tick model has no delay to "
+             "return plus a trace monitor; 'ticked once per pass' is decided by the trace monitor. Known finding K18a (animation started in the loop body is never ticked).",
+        technique="Lean 4 invariant/termination proofs on animation state machines + model/implementation correspondence (S_c, H)", ref="4/C18"),
     "C19": dict(
         text="Invariants of Led/RGBLed/Servo/DCMotor proved in Lean for every call (any int/float/bool argument) and hence every call history by induction, atomic failure, "
              "fade/ramp end-points and monotonicity, sleep totals — over an arbitrary ordered field (exact arithmetic). The executable model (at IEEE double) is compared bit-exactly "
